@@ -383,7 +383,17 @@ func runC17(c *Ctx) error {
 		}
 		for _, st := range settings {
 			done := map[string]bool{}
-			for _, v := range st.cands {
+			// and the setting given as a reference to the environment, resolving to a documented value: if the parser
+			// substitutes it and the package builds, the schema must allow such a document
+			envValue := ""
+			if vs := enumerated[st.path]; len(vs) > 0 {
+				envValue = vs[0]
+			}
+			extra := []string{"${VERIF_SETTING}", "$VERIF_SETTING"}
+			if st.path == "version_schema" {
+				extra = nil // every string is accepted there and means semver unless it is "none"
+			}
+			for _, v := range append(append([]string{}, st.cands...), extra...) {
 				if done[v] {
 					continue
 				}
@@ -393,7 +403,12 @@ func runC17(c *Ctx) error {
 				}
 				doc := st.doc(v)
 				yb, _ := yaml.Marshal(doc)
-				cfg, perr := nfpm.ParseWithEnvMapping(bytes.NewReader(yb), func(string) string { return "" })
+				cfg, perr := nfpm.ParseWithEnvMapping(bytes.NewReader(yb), func(k string) string {
+					if k == "VERIF_SETTING" {
+						return envValue
+					}
+					return ""
+				})
 				builds := false
 				if perr == nil {
 					if info, gerr := cfg.Get(st.format); gerr == nil {
